@@ -78,6 +78,10 @@ fn main() {
             }
         }
     }
+    if args[1] == "c19-child" {
+        c19::child_main();
+        return;
+    }
     if args[1] == "c09-child" {
         c09::child_main(&args);
         return;
